@@ -69,10 +69,20 @@ SCALAR_FORMS = {
     "act-0d": ("act", lambda k: np.array(int(k))),
     "act-bool": ("act", bool),
     "actf-np": ("actf", np.float64),
+    "actf-f32": ("actf", np.float32),
+    "actf-f16": ("actf", np.float16),
     "trim-np": ("trim", np.int64),
     "trim-i32": ("trim", np.int32),
+    "trim-u8": ("trim", np.uint8),
     "trimf-np": ("trimf", np.float64),
+    "trimf-f32": ("trimf", np.float32),
+    "trimf-f16": ("trimf", np.float16),
 }
+# numpy integer / floating scalars behave exactly like the python number of the same value; the only form
+# with its own rule is the 0-d array (not a numpy scalar): beyond the number of components it may be refused
+LENIENT_BEYOND = ("act-0d",)
+NARROW_FLOAT_FORMS = ("actf-f32", "actf-f16", "trimf-f32", "trimf-f16")
+NARROW_F_LETTERS = (0.9, 0.5, 0.0)
 
 
 def as_form(a, form):
@@ -102,7 +112,7 @@ def quantise(x, form, r):
     if form in ("i64", "i32", "i16", "int-pylists"):
         return np.round(x * 8.0)
     if form == "u8":
-        return np.clip(np.round((x - x.mean()) * 6.0 + 128.0), 0, 255)
+        return np.clip(np.round((x - x.min()) * 6.0), 0, 255)
     if form == "bool":
         return (r.rand(*x.shape) > 0.5).astype(float)
     if form == "f32":
@@ -284,11 +294,6 @@ def legal(root):
     kind, n, d, centre, variant, inkind = root[:6]
     form = root[6] if len(root) > 6 else "f64"
     inplace = inkind in ("array", "list", "iter")
-    if form in INT_FORMS or form == "int-pylists":
-        if inplace:
-            return False  # the in-place centring / scaling of an integer matrix is refused (casting error)
-        if not centre and form not in ("i64", "i32", "int-pylists"):
-            return False  # bool: subtraction refused; 8/16-bit: the second moments overflow the data dtype
     if form == "readonly" and inplace:
         return False
     if form == "f32" and centre and d >= n:
@@ -310,7 +315,8 @@ def form_roots():
         for n, d in shapes:
             for c in (1, 0):
                 cand.append(("vec", n, d, c, "full", "array-copy", form))
-                if form in ("i64", "u8", "bool"):
+                cand.append(("vec", n, d, c, "full", "array", form))
+                if form in ("i64", "u8", "bool") and (n, d) != (4, 4):
                     cand.append(("vec", n, d, c, "full", "list-ns", form))
     for n, d in shapes + [(8, 3)]:
         for c in (1, 0):
@@ -395,6 +401,16 @@ class C10(Check):
             while np.min(np.abs(cum - g)) < tol["tie"]:
                 g -= 3 * tol["tie"]
             fmap[f] = g
+        # variance fractions given as numpy float32 / float16 scalars: the model sees the value the scalar holds
+        for skind in NARROW_FLOAT_FORMS:
+            ctor = SCALAR_FORMS[skind][1]
+            for f in NARROW_F_LETTERS:
+                h = f
+                g = float(ctor(h))
+                while g > 0 and np.min(np.abs(cum - g)) < max(tol["tie"], 1e-5):
+                    h -= 0.004
+                    g = float(ctor(h))
+                fmap["%s:%r" % (skind, f)] = (h, g)
         # boundary letters: just below and just above every cumulative variance ratio of the original spectrum
         # (one letter per case split of the fraction rule; they stay meaningful after trimming, where a rule
         # that normalised by the kept instead of the original variance would count differently)
@@ -446,15 +462,21 @@ class C10(Check):
             return out
         for k in range(-1, K + 2):
             out.append(("act", k))
-        for k in sorted(set([0, 1, K, K + 1])):
-            out.append(("actnp", k))
-        # the same values given as other scalar forms
-        for kind in ("act-i32", "act-u8", "act-0d"):
-            for k in (0, 1, K + 1):
-                out.append((kind, k))
-        out += [("act-bool", 1), ("act-bool", 0)]
-        for f in (0.9, 0.999999, 0.0):
-            out.append(("actf-np", f))
+        # the same values given as other scalar forms (the scalar never meets the data: in the quick tier
+        # they are paired with the float64 data letters only)
+        scalar_forms = self.tier != "quick" or st.get("form", "f64") == "f64"
+        if scalar_forms:
+            for k in sorted(set([0, 1, K, K + 1])):
+                out.append(("actnp", k))
+            for kind in ("act-i32", "act-u8", "act-0d"):
+                for k in (0, 1, K + 1):
+                    out.append((kind, k))
+            out += [("act-bool", 1), ("act-bool", 0)]
+            for f in (0.9, 0.999999, 0.0):
+                out.append(("actf-np", f))
+            for kind in ("actf-f32", "actf-f16"):
+                for f in NARROW_F_LETTERS:
+                    out.append((kind, f))
         for f in F_LETTERS + F_INVALID:
             out.append(("actf", f))
         bounds = ["b%d%s" % (i, sgn) for i in range(K) for sgn in "-+" if "b%d%s" % (i, sgn) in st["fmap"]]
@@ -467,11 +489,15 @@ class C10(Check):
             out.append(("trimf", f))
         for b in bounds:
             out.append(("trimf", b))
-        for kind in ("trim-np", "trim-i32"):
-            for k in (0, 1, K + 1):
-                out.append((kind, k))
-        for f in (0.9, 0.0):
-            out.append(("trimf-np", f))
+        if scalar_forms:
+            for kind in ("trim-np", "trim-i32", "trim-u8"):
+                for k in (0, 1, K + 1):
+                    out.append((kind, k))
+            for f in (0.9, 0.0):
+                out.append(("trimf-np", f))
+            for kind in ("trimf-f32", "trimf-f16"):
+                for f in NARROW_F_LETTERS:
+                    out.append((kind, f))
         return out
 
     # ------------------------------------------------------------------ model of one step
@@ -480,12 +506,12 @@ class C10(Check):
         kind, a = op
         form_kind = kind
         kind = SCALAR_FORMS[kind][0] if kind in SCALAR_FORMS else kind
-        numpy_int = form_kind in SCALAR_FORMS and kind in ("act", "trim") and form_kind != "act-bool"
+        numpy_int = form_kind in LENIENT_BEYOND
         kept, active = st["kept"], st["active"]
         lam, tot = st["lam"], st["tot"]
 
         def by_fraction(f):
-            g = st["fmap"].get(f, f)
+            g = st["fmap"]["%s:%r" % (form_kind, f)][1] if form_kind in NARROW_FLOAT_FORMS else st["fmap"].get(f, f)
             cum = np.cumsum(lam[:kept]) / tot
             if not (0.0 < g <= cum[-1] + 0.0):
                 return None
@@ -497,8 +523,8 @@ class C10(Check):
             if a < 1:
                 return ["raise"]
             if a > kept:
-                # a numpy integer beyond the number of components: refusing and clamping are both
-                # compatible with the property (nothing may change except the active count)
+                # a 0-d array (not a numpy scalar) beyond the number of components: refusing and clamping
+                # are both compatible with the property (nothing may change except the active count)
                 return ["raise", (kept, kept)]
             return [(kept, a)]
         if kind == "actf":
@@ -523,7 +549,10 @@ class C10(Check):
         kind, a = op
         if kind in SCALAR_FORMS:
             base, ctor = SCALAR_FORMS[kind]
-            v = ctor(st["fmap"].get(a, a)) if base in ("actf", "trimf") else ctor(a)
+            if kind in NARROW_FLOAT_FORMS:
+                v = ctor(st["fmap"]["%s:%r" % (kind, a)][0])
+            else:
+                v = ctor(st["fmap"].get(a, a)) if base in ("actf", "trimf") else ctor(a)
             if base in ("act", "actf"):
                 m.n_active_components = v
             else:
@@ -584,9 +613,9 @@ class C10(Check):
         kind, a = op
         base = SCALAR_FORMS[kind][0] if kind in SCALAR_FORMS else kind
         if base in ("actf", "trimf"):
-            g = st["fmap"].get(a, a)
+            g = st["fmap"]["%s:%r" % (kind, a)][1] if kind in NARROW_FLOAT_FORMS else st["fmap"].get(a, a)
             return "raised-nonpositive" if g <= 0 else "raised-above-kept-variance"
-        if kind in SCALAR_FORMS and a >= 1:
+        if kind in LENIENT_BEYOND and a >= 1:
             return "raised-above-kept"
         return "raised-below-one"
 
@@ -616,6 +645,8 @@ class C10(Check):
         self.note("static:%s-%s" % ("object" if kind != "vec" else "vector", "centred" if st["centre"] else "uncentred"))
         self.note("static:K=%d" % st["K"])
         self.note("form:%s-%s-%s" % (st["form"], "object" if kind != "vec" else "vector", "centred" if st["centre"] else "uncentred"))
+        if root[5] in ("array", "list", "iter"):
+            self.note("form-inplace:%s" % st["form"])
         if m.n_components != st["K"]:
             fails.append(Failure("build", "component-count", "n_components=%r but the data has %d directions of positive variance" % (m.n_components, st["K"])))
             return fails
@@ -871,7 +902,9 @@ class C10(Check):
         # argument forms: every data form the tree accepts, every weight / vector / scalar form
         for form in INT_FORMS:
             need.append("form:%s-vector-centred" % form)
-        need += ["form:i64-vector-uncentred", "form:i32-vector-uncentred", "form:f32-vector-centred", "form:f32-vector-uncentred"]
+            need.append("form:%s-vector-uncentred" % form)
+            need.append("form-inplace:%s" % form)
+        need += ["form:f32-vector-centred", "form:f32-vector-uncentred"]
         for form in ("fortran", "strided", "readonly", "pylists", "int-pylists", "tuple"):
             need += ["form:%s-vector-centred" % form, "form:%s-vector-uncentred" % form]
         need += ["form:i64-object-centred", "form:i64-object-uncentred", "form:u8-object-centred", "form:f32-object-uncentred", "form:f32-object-centred", "form:tuple-object-centred", "form:bool-object-centred"]
@@ -885,8 +918,9 @@ class C10(Check):
                 out.append("scalar form %s never accepted" % kind)
             if not refused:
                 out.append("scalar form %s never refused" % kind)
-        if not (notes.get("actnp:raised-above-kept") or notes.get("actnp:clamped")):
-            out.append("numpy integer beyond the number of components never tried")
+        for kind in ("actnp", "act-i32", "act-u8", "trim-np", "trim-i32", "trim-u8"):
+            if not (notes.get(kind + ":clamped") or notes.get(kind + ":noop")):
+                out.append("numpy integer (%s) beyond the number of components never clamped" % kind)
         return out
 
     def rule(self):
@@ -921,15 +955,15 @@ class C10(Check):
             "n <= 11 samples, d <= 10 features; data in the argument forms float64 / int64 / int32 / int16 / uint8 / bool / float32 ndarrays, "
             "Fortran-ordered, non-contiguous and read-only arrays, lists of rows, lists of python float / int lists, tuples of samples, "
             "wherever the unchanged tree accepts the form (probed on /repo)",
-            "forms that are NOT letters because the unchanged tree refuses or mishandles them: integer / bool data with inplace=True (casting error; "
-            "PCAModel and PCAVectorModel default to inplace=True), bool data uncentred (TypeError), read-only data with inplace=True (ValueError), "
-            "uint8 / int16 data uncentred (second moments overflow the data dtype: wrong spectrum), float32 data centred with n <= d "
-            "(single-precision noise passes the 1e-10 eigenvalue floor: spurious component), numpy float32 / float16 variance fractions "
-            "(n_active_components = np.float32(0.9) sets 0 active components), lists / tuples as the vector of project / reconstruct / project_out (TypeError)",
+            "forms that are NOT letters: read-only data with inplace=True (refused, ValueError), float32 data centred with n <= d "
+            "(single-precision noise passes the 1e-10 eigenvalue floor and leaves a spurious component: a precision matter outside the property), "
+            "lists / tuples as the vector of project / reconstruct / project_out (refused, TypeError)",
+            "numpy integer / floating scalars given to n_active_components / trim_components follow the rule of the python number holding the same value "
+            "(np.float32 / np.float16 fractions: the value the scalar holds, kept %g away from every cumulative ratio)" % 1e-5,
             "float32 models are compared with the float64 reference at orthonormality %g, eigenvalues %g relative, vectors %g" % (F32_TOL["orth"], F32_TOL["eig"], F32_TOL["vec"]),
             "quick tier: histories of length 3 from the float64 data letters, of length 2 from the data letters in other argument forms",
             "the eigenvalue of an uncentred model is the (n-1)-normalised second moment about the origin [interp]",
-            "a numpy integer larger than the number of components may either be refused (ValueError, nothing changes) or clamped",
+            "a 0-d integer array (not a numpy scalar) larger than the number of components may either be refused (ValueError, nothing changes) or clamped",
             "weight vectors and probe vectors: unit, mixed-sign, seeded generic, shorter than the active count; 4 probe vectors per state",
             "tolerances: orthonormality %g, eigenvalues rel %g, vectors %g x data scale, evolved-vs-fresh exact except sums of eigenvalues (%g rel)" % (TOL_ORTH, TOL_EIG_REL, TOL_VEC, TOL_SCALAR_REL),
         ]
